@@ -175,6 +175,39 @@ def detect_cvfix(exe):
     return _cvfix
 
 
+_tafix = None
+
+
+def detect_tafix(exe):
+    """which variant of mu_try_acquire_after_timeout_or_cancel's final stores does the code have?  Decided by conformance: a two-thread
+    probe (a reader-mode conditional wait cancelled while another reader holds the mutex) is model-checked under TaFix = TRUE and every
+    transition replayed; if the code leaves that specification, the other variant is tried."""
+    global _tafix
+    if _tafix is not None:
+        return _tafix
+    from muconfigs import mwt, C1
+    prepare_spec()
+    probe = Run("C00", "quick", "model_checking")
+    verdict = True
+    for fx in (True, False):
+        conf = dict(progs=[P("R", mwt(1, cn=True), "RU"), P("R", "N", "RU")], NV=1, conds=C1, DbgFixed=True, CvFix=True, TaFix=fx)
+        out = run_config(probe, exe, "ta_probe_%s" % fx, conf, [], workers=2, prop="C00")
+        try:
+            os.unlink(out["sched"])
+        except OSError:
+            pass
+        for df in out["res"].get("divfiles", []):
+            try:
+                os.unlink(df)
+            except OSError:
+                pass
+        if not out["res"]["mismatch"]:
+            verdict = fx
+            break
+    _tafix = verdict
+    return _tafix
+
+
 # which spec invariants / real-code oracles speak for which property
 INV_OF = {"C01": {"Excl"}, "C02": {"NoStuck"}, "C04": {"PickedReportsWake", "NoStuck"}, "C05": {"RetHonest", "NoStuck"},
           "C06": {"NoStuck"}, "C11": {"PickedReportsWake", "NoStuck"}, "C13": {"NoDeadRecordTouch", "NoTouchAfterFree"},
@@ -207,7 +240,8 @@ def run_family(run, exe, prop, configs, parallel=5, workers=3, env=None, cap_tou
     prepare_spec()
     dbg = detect_dbgfixed(exe)
     cvfix = detect_cvfix(exe)
-    run.cov["spec_parameters_from_code"] = {"DbgFixed": dbg, "CvFix": cvfix, "K": consts()["K"], "masks": {k: consts()[k] for k in ("WLOCK", "SPIN", "WAITING", "DESIG", "CONDB", "WRW", "LONGW", "ALLF", "RLOCK")},
+    tafix = detect_tafix(exe)
+    run.cov["spec_parameters_from_code"] = {"DbgFixed": dbg, "CvFix": cvfix, "TaFix": tafix, "K": consts()["K"], "masks": {k: consts()[k] for k in ("WLOCK", "SPIN", "WAITING", "DESIG", "CONDB", "WRW", "LONGW", "ALLF", "RLOCK")},
                                             "LTW": consts()["LTW"], "LTR": consts()["LTR"]}
 
     exe_bin = build("h_mub") if any(c.get("Binary") for _, c in configs) else None
@@ -217,6 +251,7 @@ def run_family(run, exe, prop, configs, parallel=5, workers=3, env=None, cap_tou
         conf = dict(conf)
         conf.setdefault("DbgFixed", dbg)
         conf.setdefault("CvFix", cvfix)
+        conf.setdefault("TaFix", tafix)
         return name, conf, run_config(run, exe_bin if conf.get("Binary") else exe, name, conf, [], workers=workers, prop=prop, env=env, cap_tours=cap_tours, simulate=conf.get("_sim"))
     results = []
     with cf.ThreadPoolExecutor(parallel) as ex:
@@ -300,7 +335,7 @@ def trace_phase(run, exe, prop, tier, e):
     dbg, cvfix = detect_dbgfixed(exe), detect_cvfix(exe)
 
     def one(i):
-        conf = dict(progs[i]); conf.setdefault("DbgFixed", dbg); conf.setdefault("CvFix", cvfix)
+        conf = dict(progs[i]); conf.setdefault("DbgFixed", dbg); conf.setdefault("CvFix", cvfix); conf.setdefault("TaFix", detect_tafix(exe))
         tr = os.path.join(WORK, "tlc", "trace_%s_%d.ndjson" % (prop, i))
         res = run_harness_env(exe, ["random", str(nruns), str(seed() + 50 + i), muconf.init_line(conf), REPLAYS, tr], e)
         nlines = sum(1 for _ in open(tr))
@@ -341,7 +376,7 @@ def liveness_phase(run, prop, tier):
     dbg, cvfix = _dbgfixed if _dbgfixed is not None else True, _cvfix if _cvfix is not None else True
 
     def one(name):
-        conf = dict(muconfigs.FAM[name][0]); conf.setdefault("DbgFixed", dbg); conf.setdefault("CvFix", cvfix)
+        conf = dict(muconfigs.FAM[name][0]); conf.setdefault("DbgFixed", dbg); conf.setdefault("CvFix", cvfix); conf.setdefault("TaFix", detect_tafix(exe))
         tla, cfg = muconf.write_mc(MC, "live_" + name, conf, consts(), [], spec="FairSpecU", export=False, props=["Termination"])
         return name, tlc_plain(tla, cfg, workers=3, cwd=MC, timeout=3000)
     with cf.ThreadPoolExecutor(4) as ex:
